@@ -110,5 +110,9 @@ func (c CoefficientGetter) GetVectorCoefficient(pol polynomial.PolynomialVector,
 
 // GetSingleCoefficient returns the k-th coefficient of Polynomial as the type *[bignum.Complex].
 func (c CoefficientGetter) GetSingleCoefficient(pol polynomial.Polynomial, k int) (value *bignum.Complex) {
+	// a nil coefficient is an absent (zero) coefficient
+	if pol.Coeffs[k] == nil {
+		return bignum.NewComplex()
+	}
 	return pol.Coeffs[k]
 }
